@@ -157,6 +157,9 @@ def run_patched(mod, names, LF, delays, call):
 def oracle_srs(case, R):
     from pyyeti import srs
     sig = make_signal(case)
+    if case.get("intsig"):
+        sig = np.round(np.asarray(sig) * 50.0).astype(np.int64)   # raw counts of a digitiser held in an integer array
+        R.label("sig:int64_counts")
     sig, lab_ = util.repack(sig, case.get("spack", "same"))     # same container for the serial and the parallel run
     R.label("sig:" + lab_)
     sr = case["sr"]
@@ -343,7 +346,8 @@ def srs_cases(draw):
             "eqsine": draw(st.booleans()), "maxcpu": draw(st.sampled_from([1, 2, 3, 4, 7, 16, None])),
             "delay": draw(st.sampled_from(["none", "reverse", "random", "random", "straggler"])),
             "offset": draw(st.sampled_from([0.0, 3.0])), "seed": draw(st.integers(0, 2 ** 31)),
-            "spack": draw(st.sampled_from(["same", "same", "fortran", "strided", "readonly", "list"]))}
+            "spack": draw(st.sampled_from(["same", "same", "fortran", "strided", "readonly", "list"])),
+            "intsig": draw(st.integers(0, 3)) == 0}
 
 
 @st.composite
@@ -375,7 +379,7 @@ def enum_grid(shard, nshards, tier):
                                "Q": 10.0, "stype": stype,
                                "ic": ic, "peak": ["abs", "pos", "neg", "poss", "negs", "rms"][i % 6], "time": tm,
                                "getresp": getresp, "eqsine": False, "maxcpu": [2, 3, 4][i % 3],
-                               "delay": "reverse", "offset": 3.0, "seed": i}
+                               "delay": "reverse", "offset": 3.0, "seed": i, "intsig": i % 3 == 0}
 
 
 PARTS = [
